@@ -45,6 +45,11 @@ def gen_tx(rng):
             c1 = a + rng.randrange(0, max(1, (b - a) // 2 + 1))
             c2 = rng.randrange(c1, b + 1)
             cds.append([c1, c2])
+    r = rng.random()
+    if exons and r < 0.1:
+        exons = exons + [[e + 10, e + 25]]          # a stray exon child wholly beyond the transcript: the blocks do not span it
+    elif cds and r < 0.2:
+        cds = cds + [[e + 30, e + 36]]              # a stray CDS child beyond the transcript: it still bounds the thick part
     utr = []
     if exons and rng.random() < 0.4:
         utr = [[exons[0][0], exons[0][0] + rng.randrange(0, 3)]]
